@@ -15,13 +15,15 @@ func init() {
 	commands["C11"] = runC11
 }
 
-var dgramClasses = []string{"valid", "short", "long", "wrong-serial", "serial-0", "wrong-function", "wrong-id", "id-0x19", "malformed-field"}
+var dgramClasses = []string{"valid", "short", "empty", "long", "wrong-serial", "serial-0", "wrong-function", "wrong-id", "id-0x19", "malformed-field"}
 
 func makeDgram(r *Rand, class string, oc OpCase, id uint32) []byte {
 	base := genReply(r, oc.Resp, id, 0, nil)
 	switch class {
 	case "short":
-		return base[:r.Intn(64)]
+		return base[:1+r.Intn(63)]
+	case "empty":
+		return []byte{}
 	case "long":
 		return append(base, r.Bytes(1+r.Intn(200))...)
 	case "wrong-serial":
@@ -252,10 +254,10 @@ func netC03(s *Sink, tier string) {
 				switch {
 				case m == 0 && (err != nil || e == nil || e.Index != idx):
 					s.Fail(js, fmt.Sprintf("a well-formed reply from the addressed controller was not accepted (%v)", err))
-				case m == 8 && err == nil && e != nil:
+				case m == 8 && err == nil:
 					// 0x19 is only legal for function 0x20 (events): any other function with SOM 0x19 must be refused
 					s.Fail(js, "a reply with protocol id 0x19 and a function other than 0x20 was accepted")
-				case m != 0 && m != 8 && err == nil && e != nil:
+				case m != 0 && m != 8 && err == nil: // also a "no event" answer is a result - there was no acceptable reply to base it on
 					accepted++
 					s.Fail(js, fmt.Sprintf("a datagram that is not a well-formed reply from the addressed controller (%s) was returned as the result over %s", mangleNames[m], pn))
 				}
